@@ -86,9 +86,7 @@ theorem firstField_mem {fs : List Field} {s : String} {f : Field} (h : firstFiel
 theorem toObsReq_assemble (h : ReqHead) (info : Meta) (wf : WFReq h) :
     toObsReq (assembleReq h.method h.target h.ver (hdrsAll h.fields) (requestLine h) info) =
       some (reportReq h) := by
-  obtain ⟨_, _, _, _, _, _, hfw, hck, hrf, hlang⟩ := wf
-  have hck' : (h.fields.filter (fun f => ciEq f.name "cookie")).length ≤ 1 := hck
-  have hrf' : (h.fields.filter (fun f => ciEq f.name "referer")).length ≤ 1 := hrf
+  obtain ⟨_, _, _, _, _, _, hfw, hlang⟩ := wf
   unfold toObsReq assembleReq
   simp only [reported_eq_filter]
   -- Accept-Language
@@ -117,22 +115,20 @@ theorem toObsReq_assemble (h : ReqHead) (info : Meta) (wf : WFReq h) :
     apply List.map_congr_left
     intro x hx
     exact convertHeader_eq_sigEntry true x
-  have hcookie : (if HttpLists.parseCookies = true then cookiesOfHeader (lastValue (hdrsAll h.fields) (ascii "cookie"))
-      else []) = cookiesOfField (firstField h.fields "cookie") := by
+  have hcookie : (if HttpLists.parseCookies = true then cookiesOfHeader (cookieHeader (hdrsAll h.fields))
+      else []) = cookiesOfLines ((fieldsNamed h.fields "cookie").map (·.value)) := by
     have : HttpLists.parseCookies = true := rfl
     simp only [this, if_true]
-    unfold hdrsAll
-    rw [lastValue_hdrs "cookie" (by decide) h.fields 0 hck']
-    unfold firstField
-    cases hf : h.fields.find? (fun f => ciEq f.name "cookie") with
-    | none => rfl
-    | some f =>
-      simp only [Option.map_some, cookiesOfHeader, cookiesOfField]
-      have hm := List.mem_of_find?_eq_some hf
-      exact parseCookies_eq _ (hfw f hm).2.2.2.1.1
-  have hreferer : lastValue (hdrsAll h.fields) (ascii "referer") = (firstField h.fields "referer").map (·.value) := by
-    unfold hdrsAll
-    exact lastValue_hdrs "referer" (by decide) h.fields 0 hrf'
+    rw [cookieHeader_hdrs]
+    unfold fieldsNamed
+    apply cookiesOfHeader_join
+    intro x hx
+    obtain ⟨f, hf, rfl⟩ := List.mem_map.mp hx
+    exact (hfw f (List.mem_filter.mp hf).1).2.2.2.1.1
+  have hreferer : lastValue (hdrsAll h.fields) (ascii "referer") =
+      (fieldsNamed h.fields "referer").getLast?.map (·.value) := by
+    unfold hdrsAll fieldsNamed
+    exact lastValue_hdrs_last "referer" (by decide) h.fields 0
   unfold reportReq
   simp only [hhord, absentHeaders_eq, hcookie, hreferer]
   rfl
